@@ -92,6 +92,9 @@ class C20(Prop):
                 if r["exit_ms"] < 0:
                     res.append(("graceful:no-exit", "the agent was still running %d ms after the signal (grace %d ms)" % (g + 3000, g), rp))
                     continue
+                if sc.get("late_listed") and g > 0 and (r.get("late_fetched_ms", -1) < 0 or r.get("late_backend_calls") != 1 or not r.get("late_upload_ok")):
+                    res.append(("graceful:request-listed-by-the-poll-in-flight-dropped", "the pending-list call in flight at the signal was answered with a request ID %d ms after the signal; with %d ms of grace that request was fetched: %s, reached the backend %s time(s), answered in full: %s" % (
+                        150, g, r.get("late_fetched_ms", -1) >= 0, r.get("late_backend_calls"), r.get("late_upload_ok")), rp))
                 if g == 0 and r["exit_ms"] > sig + SLACK:
                     res.append(("graceful:late-exit-without-option", "exit %d ms after the signal although no grace period is configured" % (r["exit_ms"] - sig), rp))
                 if sc.get("phase") == "health-wait":
